@@ -1,11 +1,9 @@
-//! seqdrv — runs generated cases on the real fibre API.
-//! stdin: one case per line "<engine> <case...>"; stdout: one result line per case.
-//! Output formats mirror /verif/ocaml/eng_*.ml exactly; `check` diffs them.
+//! seqdrv — shared helpers for the per-engine line drivers in src/bin/.
+//! Each driver reads one case per line on stdin and prints one result line per
+//! case; formats mirror /verif/ocaml/eng_<engine>.ml exactly; `check` diffs them.
 use std::io::{self, BufRead, Write};
 
-mod eng_policy;
-
-fn main() {
+pub fn main_loop(run: impl Fn(&[&str]) -> String) {
   // panics inside an op are an *output*, not a crash: keep the default hook quiet
   std::panic::set_hook(Box::new(|_| {}));
   let stdin = io::stdin();
@@ -14,14 +12,7 @@ fn main() {
   for line in stdin.lock().lines() {
     let line = line.unwrap();
     let toks: Vec<&str> = line.split_whitespace().collect();
-    let res = if toks.is_empty() {
-      String::new()
-    } else {
-      match toks[0] {
-        "policy" => eng_policy::run(&toks[1..]),
-        e => format!("unknown engine {e}"),
-      }
-    };
+    let res = if toks.is_empty() { String::new() } else { run(&toks) };
     writeln!(out, "{res}").unwrap();
   }
   out.flush().unwrap();
